@@ -203,9 +203,9 @@ pub fn presence_prefixes(cmd: u8) -> (Vec<Vec<u32>>, Vec<Vec<u32>>) {
 }
 
 pub fn run(ctx: &mut Ctx) {
-    let per_mask = ctx.t(6, 120);
+    let per_mask = ctx.t(10, 120);
     let per_nested = ctx.t(1, 12);
-    let free = ctx.t(4_000, 150_000);
+    let free = ctx.t(8_000, 150_000);
     for cmd in PARAM_CMDS {
         let g = gen_of(cmd);
         let (tops, nested) = presence_prefixes(cmd);
